@@ -98,6 +98,11 @@ CLAIMED = {
    text="QR versions 1..40, all 30 Data Matrix sizes and nine 1-D symbologies, seeded contents incl. finder-imitating payloads; poses: padding 0..40 px, scale 1..6, rotations 0/90/180/270, QR mirror; positive obligations: 1-D rot180 -> content + ORIENTATION 180, rot90/270 with TRY_HARDER -> content, transposed QR matrix -> content + mirrored flag (and upright not flagged); an upside-down sweep per 1-D symbology to reach per-number ambiguities of rate 1e-3..1e-4; read rates per symbology/scale/rotation reported, floors on reads at scale >= 3.",
    note="Canonical contents from onedref (independent check digits). Single-format readers only. Open known finding: upside-down UPC-E misread (~0.2 % of numbers).",
    design="5/C09"),
+ "C06": dict(
+   technique="runtime totality monitor: recover() boundary, CPU/heap watchdog and result/error-kind oracle around every reader, decoder, parser and row decoder under hostile inputs (mutated valid symbols, noise, exhaustive small streams)",
+   text="19 reader configurations x both binarisers, QR multi reader (Decode and DecodeMultiple), QR / Data Matrix / Aztec matrix decoders on arbitrary (incl. non-square, wrong-size) matrices, the three bit-stream parsers (every QR mode nibble x version class, every ECI value in every form, all Data Matrix streams of <= 2 codewords, all Aztec bit strings <= 14 bits; deeper in thorough), 15 RowDecoders on every row of length 1..12 and seeded rows to 400; valid symbols from all writers and from qrref/dmref/azref/onedref/an RSS-14 encoder with module flips, row/column deletion, crops, noise, ramps, alpha, rotation/shear; well-typed hints incl. charsets without codec. Oracle: no panic, within budget, exactly one of result/error, image-level errors of the three kinds.",
+   note="Open known finding: super-polynomial cost of the QR finder-pattern selection on images tiled with finder patterns (CPU-time budget). DecodeMultiple may return an empty non-nil slice with nil error.",
+   design="5/C06"),
 }
 
 PENDING_REASON = "monitor not yet built in this round (designed in DESIGN.md section 5; build order in section 8) - not claimed until its check runs clean"
